@@ -7,7 +7,7 @@
              simulator side: the regenerated Reg_clock
    match_comb / match_flat   per-design decidable checks (vm_compute) that imply the hypotheses of the composition theorems.
    NO PROOFS in this file. *)
-From V Require Import Base.PyInt Base.Bits Gen.WireOps Gen.Helpers Gen.Prims Gen.Seq Model.VSyntax Model.VSem Model.Inline Model.SimKernel.
+From V Require Import Base.PyInt Base.Bits Gen.WireOps Gen.Helpers Gen.Prims Gen.Seq Model.VSyntax Model.VSem Model.Inline Model.SimKernel Model.StructLogic.
 Local Open Scope Z_scope.
 
 Inductive prim :=
@@ -19,19 +19,29 @@ Inductive prim :=
   | PConstant (r : nid) (v : Z)
   | PSignedMul (r a b : nid) | PSignExtend (r a : nid)
   | PConcatMSBF (r : nid) (ins : list nid) | PConcatLSBF (r : nid) (ins : list nid)
-  | PRepeat (r i : nid).
+  | PRepeat (r i : nid)
+  (* MACRO-LEAVES: blocks the generator prints as ONE assign while the simulator builds a sub-network of gates.  The kernel leaf
+     is C08's model of that sub-network (Model/StructLogic.v: the composition of the regenerated primitives the constructor
+     instantiates); its internal wires do not exist in the kernel design. *)
+  | PXor2 (r a b : nid) | PNand2 (r a b : nid) | PNor2 (r a b : nid)
+  | PAnd (r : nid) (ins : list nid) | POr (r : nid) (ins : list nid) | PNor (r : nid) (ins : list nid)
+  | PEqual (r a b : nid) | PEqualConst (r a : nid) (v : Z).
 
 Definition prim_out (p : prim) : nid :=
   match p with
   | PAnd2 r _ _ | POr2 r _ _ | PNot r _ | PBuf r _ | PZeroExtend r _ | PSub r _ _ | PMul r _ _ | PAddCI r _ _ _
   | PShl r _ _ | PShr r _ _ | PMux2 r _ _ _ | PRange r _ _ _ | PBit r _ _ | PConstant r _
-  | PSignedMul r _ _ | PSignExtend r _ | PConcatMSBF r _ | PConcatLSBF r _ | PRepeat r _ => r
+  | PSignedMul r _ _ | PSignExtend r _ | PConcatMSBF r _ | PConcatLSBF r _ | PRepeat r _
+  | PXor2 r _ _ | PNand2 r _ _ | PNor2 r _ _ | PAnd r _ | POr r _ | PNor r _ | PEqual r _ _ | PEqualConst r _ _ => r
   end.
 
 (* the nets the instance reads, in the order of the leaf's argument list *)
 Definition prim_ins (p : prim) : list nid :=
   match p with
-  | PAnd2 _ a b | POr2 _ a b | PSub _ a b | PMul _ a b | PSignedMul _ a b => [a; b]
+  | PAnd2 _ a b | POr2 _ a b | PSub _ a b | PMul _ a b | PSignedMul _ a b
+  | PXor2 _ a b | PNand2 _ a b | PNor2 _ a b | PEqual _ a b => [a; b]
+  | PEqualConst _ a _ => [a]
+  | PAnd _ ins | POr _ ins | PNor _ ins => ins
   | PNot _ a | PBuf _ a | PZeroExtend _ a | PShl _ a _ | PShr _ a _ | PRange _ a _ _ | PBit _ a _ | PSignExtend _ a | PRepeat _ a => [a]
   | PAddCI _ a b ci => [a; b; ci]
   | PMux2 _ sel s0 s1 => [sel; s0; s1]
@@ -59,6 +69,14 @@ Definition prim_assigns (p : prim) : list (rlval * rexpr) :=
   | PSignExtend r a => inl_signextend r a
   | PConcatMSBF r ins | PConcatLSBF r ins => inl_concat r ins
   | PRepeat r i => inl_repeat r i
+  | PXor2 r a b => inl_bin BXor r a b
+  | PNand2 r a b => inl_nbin BAnd r a b
+  | PNor2 r a b => inl_nbin BOr r a b
+  | PAnd r ins => match ins with [] => [(whole r, RNum 0)] | _ => inl_nary BAnd r ins end      (* [] cannot be built; excluded by prim_wf *)
+  | POr r ins => match ins with [] => [(whole r, RNum 0)] | _ => inl_nary BOr r ins end
+  | PNor r ins => match ins with [] => [(whole r, RNum 0)] | _ => inl_nnary BOr r ins end
+  | PEqual r a b => inl_equal r a b
+  | PEqualConst r a v => inl_equalconst r a v
   end.
 
 (* the value the simulator leaf passes to Wire.put, from the values read on prim_ins (same order) *)
@@ -84,6 +102,14 @@ Definition prim_fn (p : prim) (vs : list Z) : Z :=
   | PConcatMSBF r ins => ConcatenateMSBF_propagate (snd r) (combine (map snd ins) vs)
   | PConcatLSBF r ins => ConcatenateLSBF_propagate (snd r) (combine (map snd ins) vs)
   | PRepeat r _ => Repeat_propagate (snd r) (v 0%nat)
+  | PXor2 r a b => Xor2_m (snd a) (snd b) (snd r) (v 0%nat) (v 1%nat)
+  | PNand2 r a _ => Nand2_m (snd a) (snd r) (v 0%nat) (v 1%nat)
+  | PNor2 r a _ => Nor2_m (snd a) (snd r) (v 0%nat) (v 1%nat)
+  | PAnd r _ => And_m (snd r) vs
+  | POr r _ => Or_m (snd r) vs
+  | PNor r ins => Nor_m (match ins with x :: _ => snd x | [] => 0 end) (snd r) vs
+  | PEqual r a b => Equal_m (snd a) (snd b) (v 0%nat) (v 1%nat)
+  | PEqualConst r a k => EqualConstant_m (snd a) (snd r) k (v 0%nat)
   end.
 
 (* the simulator leaf: wire ids are the flat net ids; one definite output *)
@@ -101,6 +127,14 @@ Definition prim_guard (p : prim) : bool :=
   | PSignExtend r a => (snd a <? snd r) && (snd a - 1 <? 2 ^ 31)
   | PConcatMSBF _ ins | PConcatLSBF _ ins => match ins with [] => false | _ => true end
   | PRepeat _ i => snd i =? 1
+  (* guards of C08's ladder theorems: Xor2's result no wider than a (C08_xor2_wide_refuted otherwise); Nor2/Nor: every operand fits
+     the Mid wire, which has the first operand's width; Equal: equal operand widths; EqualConstant: the constant fits the operand *)
+  | PXor2 r a _ => snd r <=? snd a
+  | PNor2 _ a b => snd b <=? snd a
+  | PAnd _ ins | POr _ ins => match ins with [] => false | _ => true end
+  | PNor _ ins => match ins with [] => false | x :: t => forallb (fun n => snd n <=? snd x) t end
+  | PEqual r a b => (snd a =? snd b) && (snd r =? 1)
+  | PEqualConst r a v => (snd r =? 1) && (0 <=? v) && (v <? 2 ^ snd a) && (v <? 2 ^ 31)
   | _ => true
   end.
 Definition prim_wf (p : prim) : bool :=
